@@ -866,7 +866,7 @@ def jobs_c03(tier):
     for cls in ('ListOffsetArray32', 'ListOffsetArrayU32', 'ListArray64', 'ListArray32', 'ListArrayU32'):
         for l in (shapes[-1:] if tier == 'quick' else shapes[:6]):
             js.append((h_reduce_local, (l, cls), 1800))
-    for l in ([(2, 2)] if tier == 'quick' else [(2, 2), (1, 3), (3, 1), (2, 0)]):
+    for l in ([(2, 2)] if tier == 'quick' else [(2, 2), (1, 1, 1), (3, 3), (0, 0), (3,)]):     # a regular node: equal rows only
         js.append((h_reduce_local, (l, 'RegularArray'), 1800))
     return js
 
